@@ -171,6 +171,42 @@ impl InodeData {
 }
 
 /// Data structures to manage accessed inodes.
+/// Verification hooks, compiled only with `--cfg fuse_backend_rs_verif`.
+#[cfg(fuse_backend_rs_verif)]
+pub mod verif {
+    use std::sync::RwLock;
+
+    type Hook = Box<dyn Fn(&'static str) + Send + Sync>;
+    static HOOK: RwLock<Option<Hook>> = RwLock::new(None);
+
+    /// Install (or remove) the scheduler callback invoked at every yield point.
+    pub fn set_yield_hook(h: Option<Hook>) {
+        *HOOK.write().unwrap() = h;
+    }
+
+    /// A point between two lock acquisitions / atomic operations of lookup and forget.
+    /// Does nothing unless a hook is installed.
+    pub fn yield_point(site: &'static str) {
+        if let Some(h) = HOOK.read().unwrap().as_ref() {
+            h(site);
+        }
+    }
+}
+
+#[cfg(fuse_backend_rs_verif)]
+impl<S: BitmapSlice + Send + Sync> PassthroughFs<S> {
+    /// Verification hook (read-only): number of live inode objects, open handles,
+    /// directory-position records and mount fds held by this instance.
+    pub fn verif_table_sizes(&self) -> (usize, usize, usize, usize) {
+        (
+            self.inode_map.inodes.read().unwrap().verif_len(),
+            self.handle_map.handles.read().unwrap().len(),
+            self.handle_map.cookies.lock().unwrap().len(),
+            self.mount_fds.verif_len(),
+        )
+    }
+}
+
 struct InodeMap {
     inodes: RwLock<InodeStore>,
 }
@@ -678,10 +714,14 @@ impl<S: BitmapSlice + Send + Sync> PassthroughFs<S> {
 
         let mut found = None;
         'search: loop {
+            #[cfg(fuse_backend_rs_verif)]
+            verif::yield_point("lookup:before-probe");
             match self.inode_map.get_alt(&id, handle_opt.as_ref()) {
                 // No existing entry found
                 None => break 'search,
                 Some(data) => {
+                    #[cfg(fuse_backend_rs_verif)]
+                    verif::yield_point("lookup:after-probe-hit");
                     let curr = data.refcount.load(Ordering::Acquire);
                     // forgot_one() has just destroyed the entry, retry...
                     if curr == 0 {
@@ -690,6 +730,8 @@ impl<S: BitmapSlice + Send + Sync> PassthroughFs<S> {
 
                     // Saturating add to avoid integer overflow, it's not realistic to saturate u64.
                     let new = curr.saturating_add(1);
+                    #[cfg(fuse_backend_rs_verif)]
+                    verif::yield_point("lookup:between-load-and-cas");
 
                     // Synchronizes with the forgot_one()
                     if data
@@ -713,6 +755,8 @@ impl<S: BitmapSlice + Send + Sync> PassthroughFs<S> {
                 InodeHandle::File(path_fd)
             };
 
+            #[cfg(fuse_backend_rs_verif)]
+            verif::yield_point("lookup:before-write-lock");
             // Write guard get_alt_locked() and insert_lock() to avoid race conditions.
             let mut inodes = self.inode_map.get_map_mut();
 
